@@ -24,7 +24,9 @@ def one(name):
         rc, out = sh('git apply %s/patch.diff' % d, cwd=wt)
         if rc != 0:
             return name, {'error': 'patch does not apply: ' + out[-200:]}
-        for p in ([name[:3]] if os.environ.get('OWN_ONLY') else PROPS):
+        extra = dict(x.split(':') for x in os.environ.get('MATRIX_EXTRA', '').split(',') if ':' in x)
+        # (OWN_ONLY: the check of the property the change breaks, and the neighbours named in MATRIX_EXTRA=name:Cxx+Cyy,...)
+        for p in ([name[:3]] + [q for q in extra.get(name, '').split('+') if q] if os.environ.get('OWN_ONLY') else PROPS):
             env = dict(os.environ, SISMIC_REPO=wt, VERIF_REPLAY_DIR='/tmp/sm_rp_%s' % name, PYTHONDONTWRITEBYTECODE='1')
             rc, out = sh('timeout 1500 ./check %s --tier quick --no-evidence' % p, cwd=VERIF, env=env)
             lines = [l for l in out.splitlines() if l.startswith('VIOLATION')]
